@@ -114,6 +114,20 @@ class ChanScn:
                 except BaseException as e:  # noqa: BLE001
                     res.append(("exception", i, repr(v)[:150], f"{type(e).__name__}: {str(e)[:100]}"))
                     break
+            # pipelined: a large value with smaller ones right behind it (back-to-back frames in both
+            # directions; on stream transports the reader must stop exactly at each frame's end)
+            for big in (65536, 65537, 200123):
+                batch = [b"\x07" * big, 42, "after", (2**31, -0.0), b"\x08" * (big // 2 + 1), None]
+                try:
+                    for v in batch:
+                        ch.send(v)
+                    for i, v in enumerate(batch):
+                        r = ch.receive(timeout=30)
+                        if not E.same(r, v):
+                            res.append(("pipelined-mismatch", big, i, repr(r)[:80]))
+                except BaseException as e:  # noqa: BLE001
+                    res.append(("pipelined-exception", big, f"{type(e).__name__}: {str(e)[:100]}"))
+                    break
             for name, v in ChanScn.INVALID:
                 before = pipe.total
                 try:
